@@ -107,6 +107,7 @@ class Check:
 
     # ------------------------------------------------------------------ proving
     def _new(self, name, fkey, kind="deductive"):
+        name = "_".join(str(name).split())         # one token: it is printed after obligation= on VIOLATION lines
         o = Obligation(name, fkey, kind)
         self.obls.append(o)
         return o
